@@ -19,9 +19,13 @@
    c14_holds w obs = every observed outcome satisfies the clause of C14 for
                      that helper, judged by the reference functions of
                      C14_Model part 2 / plain filter, map, existsb — not by
-                     the loops. *)
+                     the loops.
 
-From Gogu Require Import Base C14_Model.
+   fn > 100: the `nan` stream (helper fn - 100 at map[float64]float64, NaN among
+   keys and values) — second half of the file; [c14_run] / [c14_agree] /
+   [c14_holds] at the end dispatch on fn. *)
+
+From Gogu Require Import Base C14_Model C14_ModelNaN.
 Local Open Scope Z_scope.
 
 (* ---------- callback families (mirrored in harness/c14.go) ---------- *)
@@ -217,7 +221,7 @@ Definition run_one (i : inp) : list Z :=
   | _ => wire_error
   end.
 
-Definition c14_run (w : list Z) : list Z :=
+Definition c14_run_base (w : list Z) : list Z :=
   match decode w with
   | Some i => enc_zss [run_one i]
   | None => wire_error
@@ -340,7 +344,7 @@ Definition outcomes (obs : list Z) : option (list (list Z)) :=
   | _ => None
   end.
 
-Definition c14_holds (w obs : list Z) : bool :=
+Definition c14_holds_base (w obs : list Z) : bool :=
   match decode w, outcomes obs with
   | Some i, Some os => forallb (holds_one i) os
   | _, _ => false
@@ -352,8 +356,301 @@ Definition agree_one (i : inp) (o : list Z) : bool :=
   else if open_choice (i_fn i) then holds_one i o
   else zlist_eqb o (run_one i).
 
-Definition c14_agree (w obs : list Z) : bool :=
+Definition c14_agree_base (w obs : list Z) : bool :=
   match decode w, outcomes obs with
   | Some i, Some os => forallb (agree_one i) os
   | _, _ => false
   end.
+
+(* ================================================================== *)
+(* The `nan` stream: the helpers at map[float64]float64 (C14_ModelNaN.v).
+
+   fn = 100 + the code of the helper above; same argument shapes.  Every key,
+   value, probe and predicate argument on the wire is the CODE of a float: the
+   integer itself, or [nan_code] for NaN (the harness only sends small integers,
+   so no arithmetic callback can produce the code by accident).  Result maps are
+   canonicalised by sorting their entries (k v) lexicographically by code — a map
+   may hold several entries under NaN, with equal or different values.
+   callback families: as above on floats (every comparison with NaN is false,
+   arithmetic propagates NaN, x%2 is math.Mod(x, 2)), plus
+     key/value predicates 6: k != k, 7: v != v;  key functions 6: const NaN. *)
+
+Definition nan_code : Z := -999999999.
+Definition fl_of_z (c : Z) : fl := if c =? nan_code then NaN else Num c.
+Definition z_of_fl (x : fl) : Z := match x with Num z => z | NaN => nan_code end.
+(* the same float (NaN is the same as NaN): used by the checker only *)
+Definition fl_same (a b : fl) : bool := z_of_fl a =? z_of_fl b.
+
+Definition fl_map1 (f : Z -> Z) (x : fl) : fl := match x with Num z => Num (f z) | NaN => NaN end.
+Definition fl_map2 (f : Z -> Z -> Z) (x y : fl) : fl :=
+  match x, y with Num a, Num b => Num (f a b) | _, _ => NaN end.
+Definition fl_even (x : fl) : bool := match x with Num z => Z.rem z 2 =? 0 | NaN => false end.
+
+Definition nvpred (c : Z) (a : fl) : fl -> bool :=
+  match c with
+  | 0 => fun _ => true
+  | 1 => fun _ => false
+  | 2 => fl_even
+  | 3 => fun x => fl_ltb x a
+  | 4 => fun x => fl_eqb x a
+  | _ => fun x => fl_ltb a x
+  end.
+Definition nkvpred (c : Z) (a : fl) : fl -> fl -> bool :=
+  match c with
+  | 0 => fun _ _ => true
+  | 1 => fun _ _ => false
+  | 2 => fun k _ => fl_ltb k a
+  | 3 => fun _ v => fl_eqb v a
+  | 4 => fun k v => fl_even (fl_map2 Z.add k v)
+  | 5 => fun k _ => fl_eqb k a
+  | 6 => fun k _ => negb (fl_eqb k k)
+  | _ => fun _ v => negb (fl_eqb v v)
+  end.
+Definition nvfun (c : Z) : fl -> fl :=
+  match c with
+  | 0 => fun v => v
+  | 1 => fl_map1 (fun z => z * 2)
+  | 2 => fun _ => Num 7
+  | 3 => fl_map1 Z.opp
+  | _ => fl_map1 (fun z => Z.rem z 2)
+  end.
+Definition nkfun (c : Z) : fl -> fl -> fl :=
+  match c with
+  | 0 => fun k _ => k
+  | 1 => fun k _ => fl_map1 (fun z => Z.rem z 2) k
+  | 2 => fun _ _ => Num 0
+  | 3 => fl_map2 Z.add
+  | 4 => fun _ v => v
+  | 5 => fun k _ => fl_map1 (fun z => z + 10) k
+  | _ => fun _ _ => NaN
+  end.
+Definition fl_sum (l : list fl) : fl := fold_left (fl_map2 Z.add) l (Num 0).
+Definition nmpred (c : Z) (a : fl) : fmap -> bool :=
+  match c with
+  | 0 => fun _ => true
+  | 1 => fun _ => false
+  | 2 => fun m => (2 <=? Z.of_nat (length m))
+  | 3 => fun m => match glookup fl_eqb m a with Some _ => true | None => false end
+  | 4 => fun m => existsb (fun kv => fl_eqb (snd kv) a) m
+  | _ => fun m => fl_even (fl_sum (map snd m))
+  end.
+
+(* ---------- canonical forms ---------- *)
+
+Fixpoint lex_leb (a b : list Z) : bool :=
+  match a, b with
+  | [], _ => true
+  | _ :: _, [] => false
+  | x :: a', y :: b' => if x <? y then true else if y <? x then false else lex_leb a' b'
+  end.
+Fixpoint insert_zl (x : list Z) (l : list (list Z)) : list (list Z) :=
+  match l with
+  | [] => [x]
+  | y :: l' => if lex_leb x y then x :: l else y :: insert_zl x l'
+  end.
+Definition sort_zl (l : list (list Z)) : list (list Z) := fold_right insert_zl [] l.
+
+Definition nflat (m : fmap) : list Z :=
+  concat (sort_zl (map (fun kv => [z_of_fl (fst kv); z_of_fl (snd kv)]) m)).
+Definition nenc_map (m : fmap) : list Z := enc_zs (nflat m).
+Definition nenc_maps (ms : list fmap) : list Z := enc_zss (map nflat ms).
+Definition nenc_fls (l : list fl) : list Z := enc_zs (map z_of_fl l).
+Definition nenc_sorted (l : list fl) : list Z := enc_zs (sort_z (map z_of_fl l)).
+Definition nenc_map2 (item : list (fl * fmap)) : list Z :=
+  Z.of_nat (length item) :: concat (sort_zl (map (fun e => z_of_fl (fst e) :: nenc_map (snd e)) item)).
+Definition nenc_coll2 (coll : list (list (fl * fmap))) : list Z :=
+  Z.of_nat (length coll) :: flat_map nenc_map2 coll.
+Definition nenc_rmap (r : res fmap) : list Z :=
+  match r with Ok m => 0 :: nenc_map m | Err _ => [1; 1] | Panic => [2] end.
+
+(* ---------- decoded input ---------- *)
+
+Record ninp := mkNinp {
+  n_fn : Z; n_c : Z; n_a : fl;
+  n_m : fmap;
+  n_zs : list fl;
+  n_zs2 : list fl;
+  n_ms : list fmap;
+  n_coll : list (list (fl * fmap))
+}.
+
+Definition fpairs (l : list Z) : fmap := map (fun kv => (fl_of_z (fst kv), fl_of_z (snd kv))) (pairs_of l).
+Definition fls (l : list Z) : list fl := map fl_of_z l.
+Definition item2_of (item : amapV amap) : list (fl * fmap) :=
+  map (fun e => (fl_of_z (fst e), map (fun kv => (fl_of_z (fst kv), fl_of_z (snd kv))) (snd e))) item.
+
+(* the argument shapes are those of the base helpers: decode with [decode] at fn - 100 *)
+Definition ndecode (w : list Z) : option ninp :=
+  match w with
+  | fn :: a =>
+      if (101 <=? fn) && (fn <=? 123) then
+        match decode ((fn - 100) :: a) with
+        | Some i => Some (mkNinp fn (i_c i) (fl_of_z (i_a i))
+                                 (map (fun kv => (fl_of_z (fst kv), fl_of_z (snd kv))) (i_m i))
+                                 (fls (i_zs i)) (fls (i_zs2 i))
+                                 (map (fun m => map (fun kv => (fl_of_z (fst kv), fl_of_z (snd kv))) m) (i_ms i))
+                                 (map item2_of (i_coll i)))
+        | None => None
+        end
+      else None
+  | [] => None
+  end.
+
+(* ---------- the model on one iteration order ---------- *)
+
+Definition nrun_one (i : ninp) : list Z :=
+  let m := n_m i in let c := n_c i in let a := n_a i in
+  match n_fn i with
+  | 101 => nenc_sorted (gkeys fl_zero m)
+  | 102 => nenc_sorted (gvalues fl_zero m)
+  | 103 => nenc_rmap (gpick fl_eqb fl_zero m (n_zs i))
+  | 104 => nenc_map (gpick_by fl_eqb (nkvpred c a) m)
+  | 105 => nenc_map (gfilter_map fl_eqb (nvpred c a) m)
+  | 106 => nenc_map (gomit fl_eqb m (n_zs i))
+  | 107 => nenc_map (gomit_by_asfound fl_eqb (nkvpred c a) m)      (* OmitBy as it is in /repo: KF-C14-omitby-nan *)
+  | 108 => nenc_map (gmap_values fl_eqb (nvfun c) m)
+  | 109 => nenc_map (gmap_keys fl_eqb (nkfun c) m)
+  | 110 => nenc_map (ginvert fl_eqb m)
+  | 111 => nenc_map (ffind (nvpred c a) m)
+  | 112 => [z_of_fl (gfind_key fl_zero (nvpred c a) m)]
+  | 113 => nenc_map (gfind_by_key fl_eqb (nvpred c a) m)
+  | 114 => nenc_fls (gpluck fl_eqb fl_zero (n_ms i) a)
+  | 115 => nenc_map (gmap_unique fl_eqb fl_eqb m)
+  | 116 => enc_bool (gmap_every (nvpred c a) m)
+  | 117 => enc_bool (gmap_some (nvpred c a) m)
+  | 118 => enc_bool (gmap_contains fl_eqb m a)
+  | 119 => nenc_rmap (gslice_to_map fl_eqb (n_zs i) (n_zs2 i))
+  | 120 => nenc_maps (gfilter_collection (nvpred c a) (n_ms i))
+  | 121 => nenc_coll2 (gfilter_collection (nmpred c a) (n_coll i))
+  | 122 => let r := gpartition_map (nmpred c a) (n_ms i) in nenc_maps (fst r) ++ nenc_maps (snd r)
+  | 123 => nenc_sorted (gmap_collection fl_zero (nvfun c) m)
+  | _ => wire_error
+  end.
+
+Definition nwith_m (i : ninp) (m : fmap) : ninp :=
+  mkNinp (n_fn i) (n_c i) (n_a i) m (n_zs i) (n_zs2 i) (n_ms i) (n_coll i).
+
+Definition nopen_choice (fn : Z) : bool :=
+  match fn with 109 | 110 | 111 | 112 | 113 | 115 => true | _ => false end.
+
+(* ---------- the property on one outcome ---------- *)
+
+Definition nout_map (o : list Z) : option fmap :=
+  match out_map o with Some r => Some (map (fun kv => (fl_of_z (fst kv), fl_of_z (snd kv))) r) | None => None end.
+
+Definition ordk (kv : fl * fl) : bool := fl_eqb (fst kv) (fst kv).
+Definition ordv (kv : fl * fl) : bool := fl_eqb (snd kv) (snd kv).
+Definition nmem_kv (kv : fl * fl) (m : fmap) : bool :=
+  existsb (fun e => fl_same (fst e) (fst kv) && fl_same (snd e) (snd kv)) m.
+(* the same multiset of entries *)
+Definition same_entries (a b : fmap) : bool := zlist_eqb (nflat a) (nflat b).
+(* a map built by assignments [img] (in some order): keys pairwise unequal, every
+   entry is one of the assignments, every ordinary key assigned is there, and
+   the entries under NaN are exactly the assignments under NaN *)
+Definition assigned_ok (img r : fmap) : bool :=
+  nodup_z (map (fun kv => z_of_fl (fst kv)) (filter ordk r))
+  && forallb (fun rv => nmem_kv rv img) r
+  && forallb (fun iv => existsb (fun rv => fl_eqb (fst rv) (fst iv)) r) (filter ordk img)
+  && same_entries (filter (fun kv => negb (ordk kv)) r) (filter (fun kv => negb (ordk kv)) img).
+
+Fixpoint min_key (best : fl * fl) (l : fmap) : fl * fl :=
+  match l with
+  | [] => best
+  | kv :: l' => min_key (if fl_ltb (fst kv) (fst best) then kv else best) l'
+  end.
+
+Definition nholds_one (i : ninp) (o : list Z) : bool :=
+  let m := n_m i in let c := n_c i in let a := n_a i in
+  let is (expected : list Z) := zlist_eqb o expected in
+  match n_fn i with
+  | 101 => is (nenc_sorted (map fst m))
+  | 102 => is (nenc_sorted (map snd m))
+  | 103 => match n_zs i with
+           | [] => is [1; 1]
+           | ks => is (0 :: nenc_map (filter (gkey_in fl_eqb ks) m))
+           end
+  | 104 => is (nenc_map (filter (gkv_ok (nkvpred c a)) m))
+  | 105 => is (nenc_map (filter (gval_ok (nvpred c a)) m))
+  | 106 => is (nenc_map (filter (fun kv => negb (gkey_in fl_eqb (n_zs i) kv)) m))
+  | 107 => is (nenc_map (filter (fun kv => negb (gkv_ok (nkvpred c a) kv)) m))
+  | 108 => is (nenc_map (map (fun kv => (fst kv, nvfun c (snd kv))) m))
+  | 109 => match nout_map o with
+           | Some r => assigned_ok (map (fun kv => (nkfun c (fst kv) (snd kv), snd kv)) m) r
+           | None => false
+           end
+  | 110 => match nout_map o with
+           | Some r => assigned_ok (map (fun kv => (snd kv, fst kv)) m) r
+           | None => false
+           end
+  | 111 => (* Find: the qualifying entry with the smallest ordered key; under NaN only when no ordered key qualifies *)
+      let q := filter (gval_ok (nvpred c a)) m in
+      match filter ordk q with
+      | kv :: q' => is (nenc_map [min_key kv q'])
+      | [] => match q with
+              | [] => is (nenc_map [])
+              | _ => match nout_map o with Some [kv] => nmem_kv kv q | _ => false end
+              end
+      end
+  | 112 => match o with
+           | [k] => if existsb (gval_ok (nvpred c a)) m
+                    then existsb (fun kv => fl_same (fst kv) (fl_of_z k) && nvpred c a (snd kv)) m
+                    else k =? 0
+           | _ => false
+           end
+  | 113 => match nout_map o with
+           | Some [] => negb (existsb (fun kv => nvpred c a (fst kv)) m)
+           | Some [kv] => nmem_kv kv m && nvpred c a (fst kv)
+           | _ => false
+           end
+  | 114 => is (nenc_fls (gspec_pluck fl_eqb (n_ms i) a))
+  | 115 => (* MapUnique: entries of m; kept values pairwise unequal; every ordinary value kept;
+              the entries with a NaN value are exactly those of m *)
+      match nout_map o with
+      | Some r =>
+          nodup_z (map (fun kv => z_of_fl (fst kv)) (filter ordk r))
+          && nodup_z (map (fun kv => z_of_fl (snd kv)) (filter ordv r))
+          && forallb (fun kv => nmem_kv kv m) r
+          && forallb (fun kv => existsb (fun rv => fl_eqb (snd rv) (snd kv)) r) (filter ordv m)
+          && same_entries (filter (fun kv => negb (ordv kv)) r) (filter (fun kv => negb (ordv kv)) m)
+      | None => false
+      end
+  | 116 => is (enc_bool (forallb (nvpred c a) (map snd m)))
+  | 117 => is (enc_bool (existsb (nvpred c a) (map snd m)))
+  | 118 => is (enc_bool (existsb (fun v => fl_eqb v a) (map snd m)))
+  | 119 => if Nat.eqb (length (n_zs i)) (length (n_zs2 i))
+           then is (0 :: nenc_map (keep_last fl_eqb (combine (n_zs i) (n_zs2 i))))
+           else is [2]
+  | 120 => is (nenc_maps (gspec_filter_collection (nvpred c a) (n_ms i)))
+  | 121 => is (nenc_coll2 (gspec_filter_collection (nmpred c a) (n_coll i)))
+  | 122 => let r := gspec_partition_map (nmpred c a) (n_ms i) in is (nenc_maps (fst r) ++ nenc_maps (snd r))
+  | 123 => is (nenc_sorted (map (fun kv => nvfun c (snd kv)) m))
+  | _ => false
+  end.
+
+Definition nagree_one (i : ninp) (o : list Z) : bool :=
+  if (length (n_m i) <=? 5)%nat
+  then existsb (fun m' => zlist_eqb o (nrun_one (nwith_m i m'))) (perms (n_m i))
+  else if nopen_choice (n_fn i) then nholds_one i o
+  else zlist_eqb o (nrun_one i).
+
+Definition is_nan_fn (w : list Z) : bool := match w with fn :: _ => 100 <? fn | [] => false end.
+
+Definition c14_run (w : list Z) : list Z :=
+  if is_nan_fn w then match ndecode w with Some i => enc_zss [nrun_one i] | None => wire_error end
+  else c14_run_base w.
+
+Definition c14_holds (w obs : list Z) : bool :=
+  if is_nan_fn w
+  then match ndecode w, outcomes obs with
+       | Some i, Some os => forallb (nholds_one i) os
+       | _, _ => false
+       end
+  else c14_holds_base w obs.
+
+Definition c14_agree (w obs : list Z) : bool :=
+  if is_nan_fn w
+  then match ndecode w, outcomes obs with
+       | Some i, Some os => forallb (nagree_one i) os
+       | _, _ => false
+       end
+  else c14_agree_base w obs.
